@@ -120,9 +120,9 @@ def line (s : String) : String :=
       let r := honestJoin cJ cA (.nonce 1) (.nonce 2) (.nonce 3) idf
       s!"{showRes r.resI} {showRes r.resA} {showMsgs r.toA} {showMsgs r.toI}"
     | _, _, _ => "bad-op"
-  | ["accset", n, a, c] => match n.toNat?, a.toNat?, c.toNat? with
-    | some n, some a, some c =>
-      let st := CookieSel.setCookie (CookieSel.startAcc n a) c
+  | ["accset", n, a, cs] => match n.toNat?, a.toNat?, parseNatList? cs with
+    | some n, some a, some cs =>
+      let st := cs.foldl CookieSel.setCookie (CookieSel.startAcc n a)
       s!"{CookieSel.handshakeCookie ErgoVerif.Gen.Acceptor.optionsReadPerConnection n st} {st.field}"
     | _, _, _ => "bad-op"
   | ["cookie", n, a, r] => match n.toNat?, a.toNat?, r.toNat? with
